@@ -76,6 +76,14 @@ macro_rules! function {
                 args: &[Value],
             ) -> Result<Type, Error>
             {
+                let nargs = [$(stringify!($aname)),+].len();
+                if args.len() < nargs {
+                    bail!("function {} requires {} arguments, {} provided",
+                        stringify!($name),
+                        nargs,
+                        args.len()
+                    )
+                }
                 let mut targs : Vec<Type> = Vec::with_capacity(args.len());
                 for x in args {
                     let t = x.real_type_of($ctx.clone())?;
